@@ -377,12 +377,12 @@ StringDictionary *StringDictionaryHASHHF::load(std::istream &in,
     return NULL;
 
   StringDictionaryHASHHF *dict = new StringDictionaryHASHHF();
-  dict->type = technique;
+  dict->type = HASHHF; // the kind tag: save() writes it back
   dict->elements = loadValue<uint64_t>(in);
   dict->maxlength = loadValue<uint32_t>(in);
   dict->maxcomplength = loadValue<uint32_t>(in);
 
-  dict->hash = Hash::load(in, dict->type);
+  dict->hash = Hash::load(in, technique);
   dict->bytesStrings = loadValue<uint64_t>(in);
   dict->textStrings = loadValue<uchar>(in, dict->bytesStrings);
   dict->hash->setData(dict->textStrings);
